@@ -15,7 +15,7 @@
     last_config_block_num. *)
 From Coq Require Import List NArith ZArith Bool.
 Import ListNotations.
-From Ont Require Import Gen.HeaderSyncGen Model.HeaderSync Proofs.C32.
+From Ont Require Import Gen.HeaderSyncGen Gen.HeaderSyncGuards Model.HeaderSync Proofs.C32 Proofs.C32Guards.
 
 (** FULL STATEMENT (all stores satisfying the store invariant, all headers):
     accepted => the governing configuration's members, C+1 distinct of them, validly signed. *)
@@ -161,6 +161,15 @@ Print Assumptions c32_classes_independent.
 Theorem c32_threshold_bounds : forall n, (1 <= n)%Z -> (1 <= hs_vbft_m n <= n)%Z.
 Proof. exact hs_vbft_m_bounds. Qed.
 Print Assumptions c32_threshold_bounds.
+
+(** Shape of the entry points (translator obligation): AddHeader, SubmitBlock and AddBlock each
+    call verifyHeader unconditionally, after exactly the committed early exits (the theorems above
+    speak about verifyHeader; this ties them to everything that stores a header). *)
+Theorem c32_verify_header_call_sites :
+  verify_header_call_sites = expected_verify_header_call_sites /\
+  forall f enc pre, In (f, (enc, pre)) verify_header_call_sites -> enc = [].
+Proof. split; [exact verify_header_call_sites_as_committed|exact verify_header_calls_unconditional]. Qed.
+Print Assumptions c32_verify_header_call_sites.
 
 (** Non-vacuity: a store satisfying the invariant and a header outside the finding classes that
     IS accepted (N=14, C=1, two distinct members, two valid signatures) — the partial theorem's
